@@ -114,7 +114,7 @@ static unsigned uv__utf8_decode1_slow(const char** p,
     return -1;  /* Invalid continuation byte. */
   }
 
-  if (0x80 != (0xC0 & (b ^ c ^ d)))
+  if (0x80 != (0xC0 & b) || 0x80 != (0xC0 & c) || 0x80 != (0xC0 & d))
     return -1;  /* Invalid sequence. */
 
   b &= 63;
